@@ -247,6 +247,18 @@ func (e *executor) processInput(workflow *Workflow) (schema.Scope, error) {
 		return nil, fmt.Errorf("bug: unserialized input is not a scope")
 	}
 	typedInput.ApplySelf()
+	// The root object is looked up by its ID in the objects on every later use of the scope.
+	rootObject, rootObjectFound := typedInput.Objects()[typedInput.Root()]
+	if !rootObjectFound || rootObject == nil {
+		return nil, &ErrInvalidWorkflow{
+			fmt.Errorf("invalid workflow input section (root object '%s' is not defined)", typedInput.Root()),
+		}
+	}
+	if rootObject.ID() != typedInput.Root() {
+		return nil, &ErrInvalidWorkflow{
+			fmt.Errorf("invalid workflow input section (object '%s' has the ID '%s')", typedInput.Root(), rootObject.ID()),
+		}
+	}
 	return typedInput, nil
 }
 
